@@ -31,7 +31,7 @@ def gen_channel(rng: random.Random, idx: int, kind=None, addressing=None, eom=No
         mod_bandwidth=bw,
         custom_phase_jump_time=rng.choice([None, None, 0, 7, 100]),
         max_amp=rng.choice([None, 8.0, 8.0, 100.0]),
-        max_abs_detuning=rng.choice([None, 8.0, 50.0]),
+        max_abs_detuning=rng.choice([None, 8.0, 50.0, None, 8.0, 50.0, 0.0]),
         min_avg_amp=rng.choice([0, 0, 0, 0.25]),
     )
     if addressing == "Local":
@@ -123,7 +123,7 @@ def gen_register(rng: random.Random):
 
 def gen_wf(rng: random.Random, d: int, amp: bool):
     vals = GRID if amp else [-x for x in GRID] + GRID
-    k = rng.choice(["const", "const", "ramp", "blackman", "custom", "composite", "interp"])
+    k = rng.choice(["const", "const", "ramp", "blackman", "custom", "composite", "interp", "kaiser"])
     if k == "const":
         return dict(k="const", d=d, v=rng.choice(vals))
     if k == "ramp":
@@ -131,6 +131,10 @@ def gen_wf(rng: random.Random, d: int, amp: bool):
     if k == "blackman":
         if amp and d >= 3:
             return dict(k="blackman", d=d, area=rng.choice([0.5, 1.0, math.pi]))
+        return dict(k="const", d=d, v=rng.choice(vals))
+    if k == "kaiser":
+        if amp and d >= 3:
+            return dict(k="kaiser", d=d, area=rng.choice([0.5, 1.0, math.pi]), beta=rng.choice([14.0, 2.0, 5.0, 0.5]))
         return dict(k="const", d=d, v=rng.choice(vals))
     if k == "custom":
         return dict(k="custom", samples=[rng.choice(vals) for _ in range(d)])
@@ -499,7 +503,7 @@ def scale_down(w, mx):
         w["values"] = [min(x, mx * 0.5) for x in w["values"]]
     elif w["k"] == "composite":
         w["parts"] = [scale_down(p, mx) for p in w["parts"]]
-    elif w["k"] == "blackman":
+    elif w["k"] in ("blackman", "kaiser"):
         w["area"] = min(w["area"], 0.3 * mx * w["d"] / 1000.0) if w["d"] * mx * 0.3 / 1000.0 > 0 else w["area"]
     return w
 
